@@ -2,11 +2,12 @@
 # Developer tool: run_on_patches.sh <label> <patch>...  — applies each patch to its own scratch copy of /repo and runs every
 # claimed check (quick) on it, four patches at a time. Prints one block per patch: "== name" followed by the VIOLATED /
 # UNDECIDED / ANALYSIS-FAILURE lines (nothing = silent). Used by the false-alarm batteries and the seed matrix.
+# ROP_P = patches in parallel (default 4); ROP_PROPS = run only these properties (then merge with tools/rop_merge.py).
 export GOFLAGS=-mod=mod GOPROXY=off GOSUMDB=off GOTOOLCHAIN=local
 label="$1"; shift
 /verif/check.sh C03 quick >/dev/null 2>&1
 export VERIF_BIN=$(mktemp /tmp/gosqlx-sa.XXXXXX); cp /verif/bin/gosqlx-sa $VERIF_BIN; chmod +x $VERIF_BIN
-export PROPS=$(python3 -c "import json;print(' '.join(c['property_id'] for c in json.load(open('/verif/MANIFEST.json'))['checks']))")
+export PROPS=${ROP_PROPS:-$(python3 -c "import json;print(' '.join(c['property_id'] for c in json.load(open('/verif/MANIFEST.json'))['checks']))")}
 one() {
   d="$1"; s=$(mktemp -d /tmp/rop.XXXXXX); rsync -a --exclude .git /repo/ "$s/repo/"; mkdir -p "$s/ev"
   out="== $(basename $(dirname $d))/$(basename $d)"
